@@ -53,20 +53,20 @@ void *vf_mmap(void *addr, size_t len, int prot, int flags, int fd, off_t off)
 		if (r <= 0) break;
 		done += r;
 	}
-	vf_mmap_live++; vf_mmap_total++;
+	__atomic_add_fetch(&vf_mmap_live, 1, __ATOMIC_RELAXED); __atomic_add_fetch(&vf_mmap_total, 1, __ATOMIC_RELAXED);
 	return p;
 }
-int vf_munmap(void *p, size_t len) { (void)len; free(p); vf_mmap_live--; return 0; }
+int vf_munmap(void *p, size_t len) { (void)len; free(p); __atomic_sub_fetch(&vf_mmap_live, 1, __ATOMIC_RELAXED); return 0; }
 
 /* ---- mkstemp: record templates ---- */
 char vf_mkstemp_templates[VF_MAXTMPL][256]; int vf_mkstemp_n = 0;
 int vf_mkstemp(char *tmpl)
 {
-	if (vf_mkstemp_n < VF_MAXTMPL) {
-		strncpy(vf_mkstemp_templates[vf_mkstemp_n], tmpl, 255);
-		vf_mkstemp_templates[vf_mkstemp_n][255] = 0;
+	int slot = __atomic_fetch_add(&vf_mkstemp_n, 1, __ATOMIC_RELAXED);     /* pooled sorters call this from worker threads */
+	if (slot < VF_MAXTMPL) {
+		strncpy(vf_mkstemp_templates[slot], tmpl, 255);
+		vf_mkstemp_templates[slot][255] = 0;
 	}
-	vf_mkstemp_n++;
 	return mkstemp(tmpl);
 }
 
